@@ -272,6 +272,25 @@ func runBIP32(c Case) res {
 	if x := compareXKey(k+"/priv", child, rchild, c.N); x.key != "" {
 		return x
 	}
+	// several children of one parent alive at once, one of them wiped with Zero:
+	// the others, and children derived afterwards, are what the specification says
+	{
+		childStr := child.String()
+		sib, serr := parent.Derive(idx ^ 1)
+		sibStr := ""
+		if serr == nil {
+			sibStr = sib.String()
+		}
+		if tmp, terr := parent.Derive(idx); terr == nil {
+			tmp.Zero()
+		}
+		if child.String() != childStr || (serr == nil && sib.String() != sibStr) {
+			return fail("Derive-after-Zero-of-a-sibling/"+k, "after Zero() of another child of the same parent: child %d reads %s (was %s), child %d reads %s (was %s)", idx, child.String(), childStr, idx^1, sib.String(), sibStr)
+		}
+		if again, aerr := parent.Derive(idx); aerr != nil || again.String() != childStr {
+			return fail("Derive-after-Zero-of-a-sibling/"+k, "Derive(%d) after an earlier child of the same parent was wiped with Zero() = %v (err %v), before: %s", idx, again, aerr, childStr)
+		}
+	}
 	pubChild, err := child.Neuter()
 	if err != nil {
 		return fail("Neuter/"+k, "Neuter failed: %v", err)
